@@ -358,9 +358,12 @@ func nontrivial(c *Case) bool {
 func main() {
 	o := vh.ParseFlags()
 	quietLogs()
-	meta := vh.NewMeta("corpus cases; grid: one fixed two-target cache (origins, keyed element, atomic container), every ONCE query path over {a,b,*} of length 0..3 x origin placement {none, prefix oc, path oc, prefix foo, first element in the prefix} x target {t1,*}; sibling-prefix: 32 ONCE/POLL requests with two paths related as strings but not as paths (a/b & a/bb, b[k=1] & b[k=10], a & ab; both orders); random: 1-3 targets, 2-10 initial notifications (single/multi update, atomic, delete, keyed elements, origins in prefix or path), one request (ONCE/POLL/few STREAM; 1-3 subscription paths of length 0..3 with globs at any position, origins in prefix/path incl. conflicts, missing path/prefix/target, unknown target, updates_only), POLL: 0-3 triggers with 0-2 cache edits (updates, deletes, target removal) before each; in 1/6 of the ONCE/POLL cases the walk is overlapped by 2-6 concurrent single-update/delete writes (one writer goroutine per target), judged by the weak clause; 1/3 of the POLL and 1/6 of the ONCE cases yield ~40us at the queue's insert schedule point (between Insert's checks and the locked insert) so that the sender can drain and park in between; idle-timeout: 22 (thorough 160) POLL/STREAM scripts on a server with WithTimeout(100ms) in which the client idles 320 ms after a received sync before the next trigger / update / EOF; target-churn: 120 (thorough 1500) ONCE/POLL scripts, 80% on target *, whose walks (initial and poll rounds) are overlapped by a loop of Cache.Remove/Cache.Add of a spare target plus 0-2 leaf writes. distinct = distinct inputs; non-trivial = the RPC ended OK and at least one update was delivered")
+	meta := vh.NewMeta("corpus cases; grid: one fixed two-target cache (origins, keyed element, atomic container), every ONCE query path over {a,b,*} of length 0..3 x origin placement {none, prefix oc, path oc, prefix foo, first element in the prefix} x target {t1,*}; sibling-prefix: 32 ONCE/POLL requests with two paths related as strings but not as paths (a/b & a/bb, b[k=1] & b[k=10], a & ab; both orders); random: 1-3 targets, 2-10 initial notifications (single/multi update, atomic, delete, keyed elements, origins in prefix or path), one request (ONCE/POLL/few STREAM; 1-3 subscription paths of length 0..3 with globs at any position, origins in prefix/path incl. conflicts, missing path/prefix/target, unknown target, updates_only), POLL: 0-3 triggers with 0-2 cache edits (updates, deletes, target removal) before each; in 1/6 of the ONCE/POLL cases the walk is overlapped by 2-6 concurrent single-update/delete writes (one writer goroutine per target), judged by the weak clause; half of the ONCE/POLL cases are perturbed at a schedule point of the coalescing queue: producers yield ~40us at insert:checked (so that the sender can drain and park between Insert's checks and the locked insert) or the consumer yields ~150us at next:empty (so that the walker can insert the rest and close the queue before the sender selects); idle-timeout: 22 (thorough 160) POLL/STREAM scripts on a server with WithTimeout(100ms) in which the client idles 320 ms after a received sync before the next trigger / update / EOF; target-churn: 120 (thorough 1500) ONCE/POLL scripts, 80% on target *, whose walks (initial and poll rounds) are overlapped by a loop of Cache.Remove/Cache.Add of a spare target plus 0-2 leaf writes. in every generated family (not corpus): with small probability a target and/or the deprecated element list on subscription paths, ignored request fields (Subscription.mode/sample_interval/heartbeat/suppress_redundant, qos, allow_aggregation, use_models, encoding, extension) and another construction of the server (options permuted, nil options interleaved, WithStats/WithFlowControlTest/stats hooks/explicit default timeout added). distinct = distinct inputs; non-trivial = the RPC ended OK and at least one update was delivered")
 	e := &emitter{dir: o.Out, cf: newCaseFile(), meta: meta, limit: 255, require: "Subscribe.C05Check", nontriv: nontrivial}
 
+	if o.Replay == "" {
+		e.noise = vh.NewRand(o.Seed ^ 0x5eed)
+	}
 	if o.Replay != "" {
 		cs, err := readCases(o.Replay)
 		if err != nil {
@@ -409,11 +412,11 @@ func main() {
 		switch g.r.Pick(42, 52, 6) {
 		case 0:
 			c := g.randomCase(1, o.Thorough())
-			c.Perturb = g.r.Chance(1, 6)
+			c.Perturb = []int{0, 0, 1, 2, 2, 2}[g.r.Intn(6)]
 			e.add(familyOf("random-once", c), c)
 		case 1:
 			c := g.randomCase(2, o.Thorough())
-			c.Perturb = g.r.Chance(1, 3)
+			c.Perturb = []int{0, 0, 1, 1, 2, 0}[g.r.Intn(6)]
 			e.add(familyOf("random-poll", c), c)
 		default:
 			m := 0
